@@ -12,7 +12,7 @@ import (
 func init() {
 	register(&Prop{
 		ID:          "C15",
-		Explanation: "Decides which request data can reach the bypass decisions: the string given to every skip-auth route regex is, on every path, query- and fragment-free — the Path of url.Parse(u), u cut at the first '?', or u itself under the fact that it contains no '?', where u is the guarded request-URI accessor's result (taint rule, unknown origin = violation); isAllowedMethod is true only for an empty rule method or equality with req.Method, isAllowedRoute only when both predicates hold for the same route element, isAllowedPath returns the negated match exactly under route.negate, and the rule builder upper-cases the method and sets negate from '!='; preflight needs the flag and OPTIONS (C01.R4); isTrustedIP is true only as trustedIPs.Has(ip) for the non-nil, error-free result of GetClientIP(p.realClientIPParser, req); NetSet.Has is true only on a hit of ipNetMap.has for the same address, which is a lookup of Mask(ip, m.mask).String(); AddIPNet inserts IP.String() only into a per-mask map whose mask size was compared equal to the network's (or recurses after creating one with the network's mask), and both sides select the family through getNetMaps; ParseIPNet rejects CIDRs with host bits set.",
+		Explanation: "Decides which request data can reach the bypass decisions: the string given to every skip-auth route regex is, on every path, query- and fragment-free — the Path of url.Parse(u), u cut at the first '?', or u itself under the fact that it contains no '?', where u is the guarded request-URI accessor's result (taint rule, unknown origin = violation); isAllowedMethod is true only for an empty rule method or equality with req.Method, isAllowedRoute only when both predicates hold for the same route element, isAllowedPath returns the negated match exactly under route.negate, and the rule builder upper-cases the method and sets negate from '!='; preflight needs the flag and OPTIONS (C01.R4); isTrustedIP is true only as trustedIPs.Has(ip) for the non-nil, error-free result of GetClientIP(p.realClientIPParser, req); NetSet.Has is true only on a hit of ipNetMap.has for the same address, which is a lookup of Mask(ip, m.mask).String(); AddIPNet inserts IP.String() only into a per-mask map whose mask size was compared equal to the network's (or recurses after creating one with the network's mask), and both sides select the family through getNetMaps; ParseIPNet rejects CIDRs with host bits set. Added during the build: the address used for the trusted-IP decision is parsed from the first comma-separated element of the configured header (R6).",
 		NotDecided:  "the regular-expression engine, CIDR mask arithmetic over all addresses, IPv4-mapped IPv6 normalisation inside net.IP (values).",
 		Run:         runC15,
 	})
@@ -25,6 +25,9 @@ func runC15(c *Ctx) {
 	r.Rule("R3-preflight", "preflight bypass needs the flag and OPTIONS (C01.R4)", 4)
 	r.Rule("R4-trusted-ip", "isTrustedIP true only as trustedIPs.Has(GetClientIP result), error-free and non-nil", 3)
 	r.Rule("R5-netset-agreement", "NetSet add/has key agreement, same-mask insertion, family selection, host-bit rejection", 7)
+
+	r.Rule("R6-client-first-element", "the real client address is the first comma-separated element of the configured header", 1)
+	runC15R6(c, "R6-client-first-element")
 
 	checkBypassOperand(c, "R1-query-free-match")
 	isAllowedPath := c.Fn("R2-route-predicates", "main.isAllowedPath")
@@ -437,8 +440,10 @@ func runC01R4Rule(c *Ctx, rule string, isAllowed, gas *ssa.Function) {
 	runC01R4(c, rule, isAllowed, gas)
 }
 
-func runC15R5(c *Ctx) {
-	rule := "R5-netset-agreement"
+func runC15R5(c *Ctx) { runNetSetRule(c, "R5-netset-agreement") }
+
+// runNetSetRule: NetSet add/has agreement (C15.R5, also C01).
+func runNetSetRule(c *Ctx, rule string) {
 	add := c.Fn(rule, "(*pkg/ip.NetSet).AddIPNet")
 	has := c.Fn(rule, "(*pkg/ip.NetSet).Has")
 	mapHas := c.Fn(rule, "(pkg/ip.ipNetMap).has")
@@ -701,4 +706,142 @@ func checkBypassOperand(c *Ctx, rule string) {
 		}
 	}
 
+}
+
+// runC15R6: the address the trusted-IP decision is made on is the FIRST element of the configured
+// client-IP header (the client as recorded by the first proxy), never a later hop.
+func runC15R6(c *Ctx, rule string) {
+	fn := c.Fn(rule, "(pkg/ip.xForwardedForClientIPParser).GetRealClientIP")
+	parseIP := c.StdFunc(rule, "net.ParseIP")
+	if fn == nil || parseIP == nil {
+		return
+	}
+	isCommaSearch := func(p *walk.Path, dv walk.DV, of walk.DV) bool {
+		call, ok := p.Resolve(dv).V.(*ssa.Call)
+		if !ok {
+			return false
+		}
+		r := p.Resolve(dv)
+		if !(isStd(&call.Call, "strings", "IndexRune") || isStd(&call.Call, "strings", "IndexByte") || isStd(&call.Call, "strings", "Index")) {
+			return false
+		}
+		if p.Key(p.Op(call.Call.Args[0], r)) != p.Key(of) {
+			return false
+		}
+		if n, ok := ConstInt(call.Call.Args[1]); ok && n == ',' {
+			return true
+		}
+		s, ok := ConstString(call.Call.Args[1])
+		return ok && s == ","
+	}
+	isCommaSep := func(v ssa.Value) bool {
+		s, ok := ConstString(v)
+		return ok && s == ","
+	}
+	// derive walks the operand back to the header read. Sub-slices (trimming brackets, ports) are fine
+	// once the value is known to be the first element: after a first-comma cut, or with no comma at all.
+	var derive func(p *walk.Path, dv walk.DV, depth int, st *firstElemState) string
+	derive = func(p *walk.Path, dv walk.DV, depth int, st *firstElemState) string {
+		if depth > 12 {
+			return "derivation too deep"
+		}
+		r := p.Resolve(dv)
+		switch v := r.V.(type) {
+		case *ssa.Call:
+			cc := &v.Call
+			switch {
+			case isStd(cc, "strings", "TrimSpace"), isStd(cc, "strings", "Trim"), isStd(cc, "strings", "TrimPrefix"), isStd(cc, "strings", "TrimSuffix"):
+				return derive(p, p.Op(cc.Args[0], r), depth+1, st)
+			case cc.StaticCallee() != nil && cc.StaticCallee().String() == "(net/http.Header).Get":
+				st.origin = r
+				return ""
+			}
+			return "call " + walk.CalleeName(cc)
+		case *ssa.Extract:
+			call, ok := v.Tuple.(*ssa.Call)
+			if !ok {
+				return "extract of non-call"
+			}
+			t := p.Op(v.Tuple, r)
+			switch {
+			case isStd(&call.Call, "net", "SplitHostPort") && v.Index == 0:
+				return derive(p, p.Op(call.Call.Args[0], t), depth+1, st)
+			case isStd(&call.Call, "strings", "Cut") && v.Index == 0 && isCommaSep(call.Call.Args[1]):
+				st.cut = true
+				return derive(p, p.Op(call.Call.Args[0], t), depth+1, st)
+			}
+			return "result of " + walk.CalleeName(&call.Call)
+		case *ssa.Slice:
+			x := p.Op(v.X, r)
+			lowZero := v.Low == nil
+			if n, ok := ConstInt(v.Low); v.Low != nil && ok && n == 0 {
+				lowZero = true
+			}
+			if lowZero && v.High != nil && isCommaSearch(p, p.Op(v.High, r), x) {
+				st.cut = true
+				return derive(p, x, depth+1, st)
+			}
+			if st.cut {
+				return "a sub-slice taken before the first-comma cut"
+			}
+			st.subslice = true
+			return derive(p, x, depth+1, st)
+		case *ssa.UnOp:
+			if ia, ok := v.X.(*ssa.IndexAddr); ok && v.Op == token.MUL {
+				if n, ok := ConstInt(ia.Index); !ok || n != 0 {
+					return "an element other than element 0 of the split header value"
+				}
+				if call, ok := p.Resolve(p.Op(ia.X, r)).V.(*ssa.Call); ok && (isStd(&call.Call, "strings", "Split") || isStd(&call.Call, "strings", "SplitN")) && isCommaSep(call.Call.Args[1]) {
+					st.cut = true
+					return derive(p, p.Op(call.Call.Args[0], p.Resolve(p.Op(ia.X, r))), depth+1, st)
+				}
+				return "an indexed value that is not strings.Split(header, \",\")"
+			}
+		}
+		return sprintf("%T", r.V)
+	}
+	noComma := func(p *walk.Path, at int, st *firstElemState) bool {
+		for _, a := range p.Atoms(at) {
+			b, ok := a.DV.V.(*ssa.BinOp)
+			if !ok || a.IsNil || !a.Val || (b.Op != token.EQL && b.Op != token.NEQ) {
+				continue
+			}
+			for _, pair := range [][2]ssa.Value{{b.X, b.Y}, {b.Y, b.X}} {
+				if n, ok := ConstInt(pair[1]); ok && n == -1 && isCommaSearch(p, p.Op(pair[0], a.DV), st.origin) {
+					return true
+				}
+			}
+		}
+		return false
+	}
+	c.Walk(rule, fn, func(p *walk.Path) {
+		ret, ok := p.ReturnDV(0)
+		if !ok || DefinitelyNil(p, ret, p.End()) {
+			return
+		}
+		at := p.End()
+		key := "first-element|" + fnKey(fn)
+		calls := p.Find(walk.Static(parseIP), at)
+		if len(calls) == 0 {
+			c.bad(rule, key, p.Exit, "an address is returned that does not come from net.ParseIP", p, at)
+			return
+		}
+		pc := calls[len(calls)-1]
+		st := &firstElemState{}
+		why := derive(p, p.Arg(pc, 0), 0, st)
+		if why == "" && st.subslice && !st.cut && !noComma(p, pc.Idx, st) {
+			why = "a sub-slice of a header value that may still hold several comma-separated elements"
+		}
+		if why == "" {
+			c.ok(rule, key, pc.In, "ParseIP operand = TrimSpace/SplitHostPort of the header value up to its first comma")
+		} else {
+			c.bad(rule, key, pc.In, "the client address is parsed from "+why+": not the first element of the client-IP header, so the trusted-IP decision can be made on a later hop's address", p, pc.Idx)
+		}
+	})
+}
+
+type firstElemState struct {
+	cut      bool // a first-comma cut was met (deeper in the derivation = earlier in execution)
+	subslice bool // some other sub-slice was applied after it
+	origin   walk.DV
 }
